@@ -109,55 +109,258 @@ package erpc
 //@ iface dynamic:func() int64
 //@   flags pure
 
-// stage functions of the plugin container (verified under C09; here their frame)
-//@ trusted (*pluginSingleContainer).preWriteReply
-//@   params p ctx
-//@   flags libframe may-panic
-//@   modifies userCtx(as(ctx, type(*handlerCtx)))
-//@ trusted (*pluginSingleContainer).postWriteReply
-//@   params p ctx
-//@   flags libframe may-panic
-//@   modifies userCtx(as(ctx, type(*handlerCtx)))
-//@ trusted (*pluginSingleContainer).preReadHeader
-//@   params p ctx
-//@   flags libframe may-panic
-//@   modifies userCtx(as(ctx, type(*handlerCtx)))
-//@ trusted (*pluginSingleContainer).postReadCallHeader
-//@   params p ctx
-//@   flags libframe may-panic
-//@   modifies userCtx(as(ctx, type(*handlerCtx)))
-//@ trusted (*pluginSingleContainer).preReadCallBody
-//@   params p ctx
-//@   flags libframe may-panic
-//@   modifies userCtx(as(ctx, type(*handlerCtx)))
-//@ trusted (*pluginSingleContainer).postReadCallBody
-//@   params p ctx
-//@   flags libframe may-panic
-//@   modifies userCtx(as(ctx, type(*handlerCtx)))
-//@ trusted (*pluginSingleContainer).postReadPushHeader
-//@   params p ctx
-//@   flags libframe may-panic
-//@   modifies userCtx(as(ctx, type(*handlerCtx)))
-//@ trusted (*pluginSingleContainer).preReadPushBody
-//@   params p ctx
-//@   flags libframe may-panic
-//@   modifies userCtx(as(ctx, type(*handlerCtx)))
-//@ trusted (*pluginSingleContainer).postReadPushBody
-//@   params p ctx
-//@   flags libframe may-panic
-//@   modifies userCtx(as(ctx, type(*handlerCtx)))
-//@ trusted (*pluginSingleContainer).postReadReplyHeader
-//@   params p ctx
-//@   flags libframe may-panic
-//@   modifies userCtx(as(ctx, type(*handlerCtx)))
-//@ trusted (*pluginSingleContainer).preReadReplyBody
-//@   params p ctx
-//@   flags libframe may-panic
-//@   modifies userCtx(as(ctx, type(*handlerCtx)))
-//@ trusted (*pluginSingleContainer).postReadReplyBody
-//@   params p ctx
-//@   flags libframe may-panic
-//@   modifies userCtx(as(ctx, type(*handlerCtx)))
 
 //@ trusted (*session).printRunLog
 //@   flags libframe
+
+// ---- C09: plugin hooks fire once, in registration order, and can veto ---------
+// ghost.trace is the sequence of hook invocations; ev(plugin, stage) one event.
+// trS(P, o, k, sid, t0): t0 extended by the events of P[o..o+k-1] that implement
+// stage interface sid, in list order (left-nested like the code's appends).
+//@ ghost global trace int
+//@ spec fn ev(f iface, sid int) int
+//@ spec fn tcat(t int, e int) int
+//@ spec fn ifc(f iface, sid int) bool = implements(f, sid)
+//@ spec fn trS(P ifacerow, o int, k int, sid int, t0 int) int
+//@ axiom[trS-def] forall P ifacerow, o int, k int, sid int, t0 int :: {trS(P, o, k, sid, t0)} trS(P, o, k, sid, t0) == (k <= 0 ? t0 : (ifc(P[o + k - 1], sid) ? tcat(trS(P, o, k - 1, sid, t0), ev(P[o + k - 1], sid)) : trS(P, o, k - 1, sid, t0)))
+//@ frameset userCmd(c *callCmd) = msgUser(as(c.output, type(*socket.message)))
+
+//@ iface erpc.PreWriteCallPlugin.PreWriteCall
+//@   params self ctx
+//@   flags libframe may-panic
+//@   modifies userCmd(as(ctx, type(*callCmd)))
+//@   ghostset ghost.trace = tcat(old(ghost.trace), ev(self, type(PreWriteCallPlugin)))
+//@ func (*pluginSingleContainer).preWriteCall
+//@   property C09
+//@   flags libframe may-panic
+//@   modifies userCmd(as(ctx, type(*callCmd))), ghost.trace
+//@   loop 0: invariant[in-order-once] $idx >= -1 && $idx < len(p.plugins) && ghost.trace == trS(rowof(p.plugins), off(p.plugins), $idx + 1, type(PreWriteCallPlugin), old(ghost.trace))
+//@   ensures[all-in-order] statOK(result) ==> ghost.trace == trS(rowof(p.plugins), off(p.plugins), len(p.plugins), type(PreWriteCallPlugin), old(ghost.trace))
+//@   ensures[stops-at-first-veto] !statOK(result) ==> (exists k int :: 0 < k && k <= len(p.plugins) && ghost.trace == trS(rowof(p.plugins), off(p.plugins), k, type(PreWriteCallPlugin), old(ghost.trace)) && ifc(rowof(p.plugins)[off(p.plugins) + k - 1], type(PreWriteCallPlugin)))
+//@   ensures[ok-is-nil] statOK(result) ==> result == nil
+//@ iface erpc.PostWriteCallPlugin.PostWriteCall
+//@   params self ctx
+//@   flags libframe may-panic
+//@   modifies userCmd(as(ctx, type(*callCmd)))
+//@   ghostset ghost.trace = tcat(old(ghost.trace), ev(self, type(PostWriteCallPlugin)))
+//@ func (*pluginSingleContainer).postWriteCall
+//@   property C09
+//@   flags libframe may-panic
+//@   modifies userCmd(as(ctx, type(*callCmd))), ghost.trace
+//@   loop 0: invariant[in-order-once] $idx >= -1 && $idx < len(p.plugins) && ghost.trace == trS(rowof(p.plugins), off(p.plugins), $idx + 1, type(PostWriteCallPlugin), old(ghost.trace))
+//@   ensures[all-in-order] statOK(result) ==> ghost.trace == trS(rowof(p.plugins), off(p.plugins), len(p.plugins), type(PostWriteCallPlugin), old(ghost.trace))
+//@   ensures[stops-at-first-veto] !statOK(result) ==> (exists k int :: 0 < k && k <= len(p.plugins) && ghost.trace == trS(rowof(p.plugins), off(p.plugins), k, type(PostWriteCallPlugin), old(ghost.trace)) && ifc(rowof(p.plugins)[off(p.plugins) + k - 1], type(PostWriteCallPlugin)))
+//@   ensures[ok-is-nil] statOK(result) ==> result == nil
+//@ iface erpc.PreWriteReplyPlugin.PreWriteReply
+//@   params self ctx
+//@   flags libframe may-panic
+//@   modifies userCtx(as(ctx, type(*handlerCtx)))
+//@   ghostset ghost.trace = tcat(old(ghost.trace), ev(self, type(PreWriteReplyPlugin)))
+//@ func (*pluginSingleContainer).preWriteReply
+//@   property C09
+//@   flags libframe may-panic
+//@   modifies userCtx(as(ctx, type(*handlerCtx))), ghost.trace
+//@   loop 0: invariant[in-order-once] $idx >= -1 && $idx < len(p.plugins) && ghost.trace == trS(rowof(p.plugins), off(p.plugins), $idx + 1, type(PreWriteReplyPlugin), old(ghost.trace))
+//@   ensures[prefix-in-order] exists k int :: 0 <= k && k <= len(p.plugins) && ghost.trace == trS(rowof(p.plugins), off(p.plugins), k, type(PreWriteReplyPlugin), old(ghost.trace))
+//@ iface erpc.PostWriteReplyPlugin.PostWriteReply
+//@   params self ctx
+//@   flags libframe may-panic
+//@   modifies userCtx(as(ctx, type(*handlerCtx)))
+//@   ghostset ghost.trace = tcat(old(ghost.trace), ev(self, type(PostWriteReplyPlugin)))
+//@ func (*pluginSingleContainer).postWriteReply
+//@   property C09
+//@   flags libframe may-panic
+//@   modifies userCtx(as(ctx, type(*handlerCtx))), ghost.trace
+//@   loop 0: invariant[in-order-once] $idx >= -1 && $idx < len(p.plugins) && ghost.trace == trS(rowof(p.plugins), off(p.plugins), $idx + 1, type(PostWriteReplyPlugin), old(ghost.trace))
+//@   ensures[prefix-in-order] exists k int :: 0 <= k && k <= len(p.plugins) && ghost.trace == trS(rowof(p.plugins), off(p.plugins), k, type(PostWriteReplyPlugin), old(ghost.trace))
+//@ iface erpc.PreWritePushPlugin.PreWritePush
+//@   params self ctx
+//@   flags libframe may-panic
+//@   modifies userCtx(as(ctx, type(*handlerCtx)))
+//@   ghostset ghost.trace = tcat(old(ghost.trace), ev(self, type(PreWritePushPlugin)))
+//@ func (*pluginSingleContainer).preWritePush
+//@   property C09
+//@   flags libframe may-panic
+//@   modifies userCtx(as(ctx, type(*handlerCtx))), ghost.trace
+//@   loop 0: invariant[in-order-once] $idx >= -1 && $idx < len(p.plugins) && ghost.trace == trS(rowof(p.plugins), off(p.plugins), $idx + 1, type(PreWritePushPlugin), old(ghost.trace))
+//@   ensures[all-in-order] statOK(result) ==> ghost.trace == trS(rowof(p.plugins), off(p.plugins), len(p.plugins), type(PreWritePushPlugin), old(ghost.trace))
+//@   ensures[stops-at-first-veto] !statOK(result) ==> (exists k int :: 0 < k && k <= len(p.plugins) && ghost.trace == trS(rowof(p.plugins), off(p.plugins), k, type(PreWritePushPlugin), old(ghost.trace)) && ifc(rowof(p.plugins)[off(p.plugins) + k - 1], type(PreWritePushPlugin)))
+//@   ensures[ok-is-nil] statOK(result) ==> result == nil
+//@ iface erpc.PostWritePushPlugin.PostWritePush
+//@   params self ctx
+//@   flags libframe may-panic
+//@   modifies userCtx(as(ctx, type(*handlerCtx)))
+//@   ghostset ghost.trace = tcat(old(ghost.trace), ev(self, type(PostWritePushPlugin)))
+//@ func (*pluginSingleContainer).postWritePush
+//@   property C09
+//@   flags libframe may-panic
+//@   modifies userCtx(as(ctx, type(*handlerCtx))), ghost.trace
+//@   loop 0: invariant[in-order-once] $idx >= -1 && $idx < len(p.plugins) && ghost.trace == trS(rowof(p.plugins), off(p.plugins), $idx + 1, type(PostWritePushPlugin), old(ghost.trace))
+//@   ensures[all-in-order] statOK(result) ==> ghost.trace == trS(rowof(p.plugins), off(p.plugins), len(p.plugins), type(PostWritePushPlugin), old(ghost.trace))
+//@   ensures[stops-at-first-veto] !statOK(result) ==> (exists k int :: 0 < k && k <= len(p.plugins) && ghost.trace == trS(rowof(p.plugins), off(p.plugins), k, type(PostWritePushPlugin), old(ghost.trace)) && ifc(rowof(p.plugins)[off(p.plugins) + k - 1], type(PostWritePushPlugin)))
+//@   ensures[ok-is-nil] statOK(result) ==> result == nil
+//@ iface erpc.PreReadHeaderPlugin.PreReadHeader
+//@   params self ctx
+//@   flags libframe may-panic
+//@   modifies userCtx(as(ctx, type(*handlerCtx)))
+//@   ghostset ghost.trace = tcat(old(ghost.trace), ev(self, type(PreReadHeaderPlugin)))
+//@ func (*pluginSingleContainer).preReadHeader
+//@   property C09
+//@   flags libframe may-panic
+//@   modifies userCtx(as(ctx, type(*handlerCtx))), ghost.trace
+//@   loop 0: invariant[in-order-once] $idx >= -1 && $idx < len(p.plugins) && ghost.trace == trS(rowof(p.plugins), off(p.plugins), $idx + 1, type(PreReadHeaderPlugin), old(ghost.trace))
+//@   ensures[all-in-order] result == nil ==> ghost.trace == trS(rowof(p.plugins), off(p.plugins), len(p.plugins), type(PreReadHeaderPlugin), old(ghost.trace))
+//@   ensures[stops-at-first-veto] result != nil ==> (exists k int :: 0 < k && k <= len(p.plugins) && ghost.trace == trS(rowof(p.plugins), off(p.plugins), k, type(PreReadHeaderPlugin), old(ghost.trace)) && ifc(rowof(p.plugins)[off(p.plugins) + k - 1], type(PreReadHeaderPlugin)))
+//@ iface erpc.PostReadCallHeaderPlugin.PostReadCallHeader
+//@   params self ctx
+//@   flags libframe may-panic
+//@   modifies userCtx(as(ctx, type(*handlerCtx)))
+//@   ghostset ghost.trace = tcat(old(ghost.trace), ev(self, type(PostReadCallHeaderPlugin)))
+//@ func (*pluginSingleContainer).postReadCallHeader
+//@   property C09
+//@   flags libframe may-panic
+//@   modifies userCtx(as(ctx, type(*handlerCtx))), ghost.trace
+//@   loop 0: invariant[in-order-once] $idx >= -1 && $idx < len(p.plugins) && ghost.trace == trS(rowof(p.plugins), off(p.plugins), $idx + 1, type(PostReadCallHeaderPlugin), old(ghost.trace))
+//@   ensures[all-in-order] statOK(result) ==> ghost.trace == trS(rowof(p.plugins), off(p.plugins), len(p.plugins), type(PostReadCallHeaderPlugin), old(ghost.trace))
+//@   ensures[stops-at-first-veto] !statOK(result) ==> (exists k int :: 0 < k && k <= len(p.plugins) && ghost.trace == trS(rowof(p.plugins), off(p.plugins), k, type(PostReadCallHeaderPlugin), old(ghost.trace)) && ifc(rowof(p.plugins)[off(p.plugins) + k - 1], type(PostReadCallHeaderPlugin)))
+//@   ensures[ok-is-nil] statOK(result) ==> result == nil
+//@ iface erpc.PreReadCallBodyPlugin.PreReadCallBody
+//@   params self ctx
+//@   flags libframe may-panic
+//@   modifies userCtx(as(ctx, type(*handlerCtx)))
+//@   ghostset ghost.trace = tcat(old(ghost.trace), ev(self, type(PreReadCallBodyPlugin)))
+//@ func (*pluginSingleContainer).preReadCallBody
+//@   property C09
+//@   flags libframe may-panic
+//@   modifies userCtx(as(ctx, type(*handlerCtx))), ghost.trace
+//@   loop 0: invariant[in-order-once] $idx >= -1 && $idx < len(p.plugins) && ghost.trace == trS(rowof(p.plugins), off(p.plugins), $idx + 1, type(PreReadCallBodyPlugin), old(ghost.trace))
+//@   ensures[all-in-order] statOK(result) ==> ghost.trace == trS(rowof(p.plugins), off(p.plugins), len(p.plugins), type(PreReadCallBodyPlugin), old(ghost.trace))
+//@   ensures[stops-at-first-veto] !statOK(result) ==> (exists k int :: 0 < k && k <= len(p.plugins) && ghost.trace == trS(rowof(p.plugins), off(p.plugins), k, type(PreReadCallBodyPlugin), old(ghost.trace)) && ifc(rowof(p.plugins)[off(p.plugins) + k - 1], type(PreReadCallBodyPlugin)))
+//@   ensures[ok-is-nil] statOK(result) ==> result == nil
+//@ iface erpc.PostReadCallBodyPlugin.PostReadCallBody
+//@   params self ctx
+//@   flags libframe may-panic
+//@   modifies userCtx(as(ctx, type(*handlerCtx)))
+//@   ghostset ghost.trace = tcat(old(ghost.trace), ev(self, type(PostReadCallBodyPlugin)))
+//@ func (*pluginSingleContainer).postReadCallBody
+//@   property C09
+//@   flags libframe may-panic
+//@   modifies userCtx(as(ctx, type(*handlerCtx))), ghost.trace
+//@   loop 0: invariant[in-order-once] $idx >= -1 && $idx < len(p.plugins) && ghost.trace == trS(rowof(p.plugins), off(p.plugins), $idx + 1, type(PostReadCallBodyPlugin), old(ghost.trace))
+//@   ensures[all-in-order] statOK(result) ==> ghost.trace == trS(rowof(p.plugins), off(p.plugins), len(p.plugins), type(PostReadCallBodyPlugin), old(ghost.trace))
+//@   ensures[stops-at-first-veto] !statOK(result) ==> (exists k int :: 0 < k && k <= len(p.plugins) && ghost.trace == trS(rowof(p.plugins), off(p.plugins), k, type(PostReadCallBodyPlugin), old(ghost.trace)) && ifc(rowof(p.plugins)[off(p.plugins) + k - 1], type(PostReadCallBodyPlugin)))
+//@   ensures[ok-is-nil] statOK(result) ==> result == nil
+//@ iface erpc.PostReadPushHeaderPlugin.PostReadPushHeader
+//@   params self ctx
+//@   flags libframe may-panic
+//@   modifies userCtx(as(ctx, type(*handlerCtx)))
+//@   ghostset ghost.trace = tcat(old(ghost.trace), ev(self, type(PostReadPushHeaderPlugin)))
+//@ func (*pluginSingleContainer).postReadPushHeader
+//@   property C09
+//@   flags libframe may-panic
+//@   modifies userCtx(as(ctx, type(*handlerCtx))), ghost.trace
+//@   loop 0: invariant[in-order-once] $idx >= -1 && $idx < len(p.plugins) && ghost.trace == trS(rowof(p.plugins), off(p.plugins), $idx + 1, type(PostReadPushHeaderPlugin), old(ghost.trace))
+//@   ensures[all-in-order] statOK(result) ==> ghost.trace == trS(rowof(p.plugins), off(p.plugins), len(p.plugins), type(PostReadPushHeaderPlugin), old(ghost.trace))
+//@   ensures[stops-at-first-veto] !statOK(result) ==> (exists k int :: 0 < k && k <= len(p.plugins) && ghost.trace == trS(rowof(p.plugins), off(p.plugins), k, type(PostReadPushHeaderPlugin), old(ghost.trace)) && ifc(rowof(p.plugins)[off(p.plugins) + k - 1], type(PostReadPushHeaderPlugin)))
+//@   ensures[ok-is-nil] statOK(result) ==> result == nil
+//@ iface erpc.PreReadPushBodyPlugin.PreReadPushBody
+//@   params self ctx
+//@   flags libframe may-panic
+//@   modifies userCtx(as(ctx, type(*handlerCtx)))
+//@   ghostset ghost.trace = tcat(old(ghost.trace), ev(self, type(PreReadPushBodyPlugin)))
+//@ func (*pluginSingleContainer).preReadPushBody
+//@   property C09
+//@   flags libframe may-panic
+//@   modifies userCtx(as(ctx, type(*handlerCtx))), ghost.trace
+//@   loop 0: invariant[in-order-once] $idx >= -1 && $idx < len(p.plugins) && ghost.trace == trS(rowof(p.plugins), off(p.plugins), $idx + 1, type(PreReadPushBodyPlugin), old(ghost.trace))
+//@   ensures[all-in-order] statOK(result) ==> ghost.trace == trS(rowof(p.plugins), off(p.plugins), len(p.plugins), type(PreReadPushBodyPlugin), old(ghost.trace))
+//@   ensures[stops-at-first-veto] !statOK(result) ==> (exists k int :: 0 < k && k <= len(p.plugins) && ghost.trace == trS(rowof(p.plugins), off(p.plugins), k, type(PreReadPushBodyPlugin), old(ghost.trace)) && ifc(rowof(p.plugins)[off(p.plugins) + k - 1], type(PreReadPushBodyPlugin)))
+//@   ensures[ok-is-nil] statOK(result) ==> result == nil
+//@ iface erpc.PostReadPushBodyPlugin.PostReadPushBody
+//@   params self ctx
+//@   flags libframe may-panic
+//@   modifies userCtx(as(ctx, type(*handlerCtx)))
+//@   ghostset ghost.trace = tcat(old(ghost.trace), ev(self, type(PostReadPushBodyPlugin)))
+//@ func (*pluginSingleContainer).postReadPushBody
+//@   property C09
+//@   flags libframe may-panic
+//@   modifies userCtx(as(ctx, type(*handlerCtx))), ghost.trace
+//@   loop 0: invariant[in-order-once] $idx >= -1 && $idx < len(p.plugins) && ghost.trace == trS(rowof(p.plugins), off(p.plugins), $idx + 1, type(PostReadPushBodyPlugin), old(ghost.trace))
+//@   ensures[all-in-order] statOK(result) ==> ghost.trace == trS(rowof(p.plugins), off(p.plugins), len(p.plugins), type(PostReadPushBodyPlugin), old(ghost.trace))
+//@   ensures[stops-at-first-veto] !statOK(result) ==> (exists k int :: 0 < k && k <= len(p.plugins) && ghost.trace == trS(rowof(p.plugins), off(p.plugins), k, type(PostReadPushBodyPlugin), old(ghost.trace)) && ifc(rowof(p.plugins)[off(p.plugins) + k - 1], type(PostReadPushBodyPlugin)))
+//@   ensures[ok-is-nil] statOK(result) ==> result == nil
+//@ iface erpc.PostReadReplyHeaderPlugin.PostReadReplyHeader
+//@   params self ctx
+//@   flags libframe may-panic
+//@   modifies userCtx(as(ctx, type(*handlerCtx)))
+//@   ghostset ghost.trace = tcat(old(ghost.trace), ev(self, type(PostReadReplyHeaderPlugin)))
+//@ func (*pluginSingleContainer).postReadReplyHeader
+//@   property C09
+//@   flags libframe may-panic
+//@   modifies userCtx(as(ctx, type(*handlerCtx))), ghost.trace
+//@   loop 0: invariant[in-order-once] $idx >= -1 && $idx < len(p.plugins) && ghost.trace == trS(rowof(p.plugins), off(p.plugins), $idx + 1, type(PostReadReplyHeaderPlugin), old(ghost.trace))
+//@   ensures[all-in-order] statOK(result) ==> ghost.trace == trS(rowof(p.plugins), off(p.plugins), len(p.plugins), type(PostReadReplyHeaderPlugin), old(ghost.trace))
+//@   ensures[stops-at-first-veto] !statOK(result) ==> (exists k int :: 0 < k && k <= len(p.plugins) && ghost.trace == trS(rowof(p.plugins), off(p.plugins), k, type(PostReadReplyHeaderPlugin), old(ghost.trace)) && ifc(rowof(p.plugins)[off(p.plugins) + k - 1], type(PostReadReplyHeaderPlugin)))
+//@   ensures[ok-is-nil] statOK(result) ==> result == nil
+//@ iface erpc.PreReadReplyBodyPlugin.PreReadReplyBody
+//@   params self ctx
+//@   flags libframe may-panic
+//@   modifies userCtx(as(ctx, type(*handlerCtx)))
+//@   ghostset ghost.trace = tcat(old(ghost.trace), ev(self, type(PreReadReplyBodyPlugin)))
+//@ func (*pluginSingleContainer).preReadReplyBody
+//@   property C09
+//@   flags libframe may-panic
+//@   modifies userCtx(as(ctx, type(*handlerCtx))), ghost.trace
+//@   loop 0: invariant[in-order-once] $idx >= -1 && $idx < len(p.plugins) && ghost.trace == trS(rowof(p.plugins), off(p.plugins), $idx + 1, type(PreReadReplyBodyPlugin), old(ghost.trace))
+//@   ensures[all-in-order] statOK(result) ==> ghost.trace == trS(rowof(p.plugins), off(p.plugins), len(p.plugins), type(PreReadReplyBodyPlugin), old(ghost.trace))
+//@   ensures[stops-at-first-veto] !statOK(result) ==> (exists k int :: 0 < k && k <= len(p.plugins) && ghost.trace == trS(rowof(p.plugins), off(p.plugins), k, type(PreReadReplyBodyPlugin), old(ghost.trace)) && ifc(rowof(p.plugins)[off(p.plugins) + k - 1], type(PreReadReplyBodyPlugin)))
+//@   ensures[ok-is-nil] statOK(result) ==> result == nil
+//@ iface erpc.PostReadReplyBodyPlugin.PostReadReplyBody
+//@   params self ctx
+//@   flags libframe may-panic
+//@   modifies userCtx(as(ctx, type(*handlerCtx)))
+//@   ghostset ghost.trace = tcat(old(ghost.trace), ev(self, type(PostReadReplyBodyPlugin)))
+//@ func (*pluginSingleContainer).postReadReplyBody
+//@   property C09
+//@   flags libframe may-panic
+//@   modifies userCtx(as(ctx, type(*handlerCtx))), ghost.trace
+//@   loop 0: invariant[in-order-once] $idx >= -1 && $idx < len(p.plugins) && ghost.trace == trS(rowof(p.plugins), off(p.plugins), $idx + 1, type(PostReadReplyBodyPlugin), old(ghost.trace))
+//@   ensures[all-in-order] statOK(result) ==> ghost.trace == trS(rowof(p.plugins), off(p.plugins), len(p.plugins), type(PostReadReplyBodyPlugin), old(ghost.trace))
+//@   ensures[stops-at-first-veto] !statOK(result) ==> (exists k int :: 0 < k && k <= len(p.plugins) && ghost.trace == trS(rowof(p.plugins), off(p.plugins), k, type(PostReadReplyBodyPlugin), old(ghost.trace)) && ifc(rowof(p.plugins)[off(p.plugins) + k - 1], type(PostReadReplyBodyPlugin)))
+//@   ensures[ok-is-nil] statOK(result) ==> result == nil
+
+// ---- C09: the container algebra behind "registration order" -------------------
+//@ trusted Fatalf
+//@   flags noreturn pure
+
+//@ func newPluginSingleContainer
+//@   property C09
+//@   modifies nothing
+//@   ensures[empty] fresh(result) && len(result.plugins) == 0
+
+// refresh: the effective list is left ++ middle ++ right, a fresh array
+//@ func (*PluginContainer).refresh
+//@   property C09
+//@   requires p.left != nil && p.middle != nil && p.right != nil && p.pluginSingleContainer != nil
+//@   modifies p.pluginSingleContainer.plugins
+//@   let L = old(len(p.left.plugins))
+//@   let M = old(len(p.middle.plugins))
+//@   let R = old(len(p.right.plugins))
+//@   ensures[concat-len] len(p.plugins) == L + M + R
+//@   ensures[concat-left] forall i int :: 0 <= i && i < L ==> p.plugins[i] == old(p.left.plugins[i])
+//@   ensures[concat-middle] forall i int :: 0 <= i && i < M ==> p.plugins[L + i] == old(p.middle.plugins[i])
+//@   ensures[concat-right] forall i int :: 0 <= i && i < R ==> p.plugins[L + M + i] == old(p.right.plugins[i])
+
+// cloneAndAppendMiddle: the clone's middle list is the parent's plus the new
+// plugins, and it OWNS its backing array: a later clone of the same parent (a
+// sibling route or group) must not be able to overwrite it through spare capacity.
+//@ func (*PluginContainer).cloneAndAppendMiddle
+//@   property C09
+//@   requires p.left != nil && p.middle != nil && p.right != nil
+//@   let M = old(len(p.middle.plugins))
+//@   ensures[shape] fresh(result) && result.left == old(p.left) && result.right == old(p.right) && fresh(result.middle)
+//@   ensures[middle-len] len(result.middle.plugins) == M + len(plugins)
+//@   ensures[middle-prefix] forall i int :: 0 <= i && i < M ==> result.middle.plugins[i] == old(p.middle.plugins[i])
+//@   ensures[middle-suffix] forall i int :: 0 <= i && i < len(plugins) ==> result.middle.plugins[M + i] == old(plugins[i])
+//@   ensures[own-backing-array] len(plugins) == 0 || base(result.middle.plugins) != old(base(p.middle.plugins))
+//@   ensures[parent-list-kept] p.middle == old(p.middle) && len(p.middle.plugins) == M
